@@ -9,6 +9,11 @@
      ctl    Spec.CtlDep.ctl_closed_b g es              (implied by the three above: C09_regions_give_ctl_closed)
      exit   Spec.CtlRegion.all_reach_exit_b g
      coverreal  region_covers_b g <real table>     selfreal  self_closed_b g <real tainted set>
+     vj     Model.Justify.ldefs_unique_cfg g && Model.Justify.vjust_cfg p g   (with an element `(p HEX)` on the line, else `-`):
+            the verified validator of VALUE claims (C06_validated_graph_claims_true, C06_constant_condition_finding_true):
+            every constant the dump attaches to a node - in particular to a branch condition, which makes the taint pass
+            and cdep / region_covers / ctl_closed SKIP that branch - is justified, hence true in every run.  "This condition
+            is constant" is thereby not taken from the implementation on trust (fourth audit).
    or (outoffuel) / (panic) / (err). *)
 open Datatypes
 open Base
@@ -36,6 +41,7 @@ let line l =
         | _ -> None) more in
     let real_b = Stdlib.List.find_map (function L (A "bset" :: vs) -> Some (Stdlib.List.map r_var vs) | _ -> None) more in
     let opt f = function Some x -> b01 (f x) | None -> A "-" in
+    let prime = Stdlib.List.find_map (function L [A "p"; A h] -> Some (z_of_hex h) | _ -> None) more in
     BranchRegion.branches_of g >>= fun br ->
     let tm = (Taint.run_taint_analysis g br).Taint.t_edges in
     SideEffect.exported_sinks g tm >>= fun es ->
@@ -46,7 +52,8 @@ let line l =
       L [A "ctl"; b01 (CtlDep.ctl_closed_b g es)];
       L [A "exit"; b01 (CtlRegion.all_reach_exit_b g)];
       L [A "coverreal"; opt (CtlRegion.region_covers_b g) real_br];
-      L [A "selfreal"; opt (CtlRegion.self_closed_b g) real_b]])
+      L [A "selfreal"; opt (CtlRegion.self_closed_b g) real_b];
+      L [A "vj"; opt (fun p -> Justify.ldefs_unique_cfg g && Justify.vjust_cfg p g) prime]])
   | _ -> "(badline)"
 
 let () = each_line line
